@@ -57,6 +57,90 @@ def bexpr(e, env):
     return None
 
 
+
+def _terminates(stmts):
+    """the statement list always leaves the enclosing block (continue / return / raise / break as its last statement)"""
+    return bool(stmts) and isinstance(stmts[-1], (ast.Continue, ast.Return, ast.Raise, ast.Break))
+
+
+def _nest_early_exits(stmts):
+    """`if T: ...; continue` followed by REST (no else)  ==>  `if T: ...; continue  else: REST`, recursively: the statements after an
+    early exit run under the negated test, which is how guards_of() reads guards"""
+    out = []
+    for k, st in enumerate(stmts):
+        for field in ('body', 'orelse'):
+            if hasattr(st, field) and isinstance(getattr(st, field), list) and not isinstance(st, (ast.FunctionDef, ast.ClassDef)):
+                setattr(st, field, _nest_early_exits(getattr(st, field)))
+        if isinstance(st, ast.If) and not st.orelse and _terminates(st.body) and k + 1 < len(stmts):
+            st.orelse = _nest_early_exits(stmts[k + 1:])
+            out.append(st)
+            return out
+        out.append(st)
+    return out
+
+
+def _is_path(e, aliases):
+    """candles | alias | path['const'] | path[j]"""
+    if isinstance(e, ast.Name):
+        return e.id == 'candles' or e.id in aliases
+    if isinstance(e, ast.Subscript) and not isinstance(e.slice, ast.Slice):
+        if isinstance(e.slice, ast.Constant) and isinstance(e.slice.value, str):
+            return _is_path(e.value, aliases)
+        if isinstance(e.slice, ast.Name) and e.slice.id == 'j':
+            return _is_path(e.value, aliases)
+    return False
+
+
+class _Subst(ast.NodeTransformer):
+    def __init__(self, table):
+        self.table = table
+
+    def visit_Name(self, n):
+        if isinstance(n.ctx, ast.Load) and n.id in self.table:
+            import copy
+            return ast.copy_location(copy.deepcopy(self.table[n.id]), n)
+        return n
+
+
+def normalise(fn):
+    """a copy of fn in which (a) local names bound ONCE to a path into the per-symbol input (`x = candles[j]`, `y = x['candles']`) are
+    replaced by that path, and their assignments dropped; (b) statements after an early `continue`/`return` are nested under the negated test.
+    Both rewrites preserve what the function reads; they only bring harmless re-arrangements back to the shapes accesses() knows."""
+    import copy
+    fn = copy.deepcopy(fn)
+    stores = {}
+    for n in ast.walk(fn):
+        if isinstance(n, ast.Name) and isinstance(n.ctx, ast.Store):
+            stores[n.id] = stores.get(n.id, 0) + 1
+        elif isinstance(n, ast.arg):
+            stores[n.arg] = stores.get(n.arg, 0) + 1
+    table = {}
+    changed = True
+    while changed:
+        changed = False
+        for n in ast.walk(fn):
+            if isinstance(n, ast.Assign) and len(n.targets) == 1 and isinstance(n.targets[0], ast.Name):
+                nm = n.targets[0].id
+                if nm in table or stores.get(nm) != 1 or nm in ('candles', 'i', 'j', 'count'):
+                    continue
+                v = n.value
+                names = {x.id for x in ast.walk(v) if isinstance(x, ast.Name)}
+                if _is_path(v, table) and ('j' in names or names & set(table)):
+                    table[nm] = _Subst(table).visit(copy.deepcopy(v))
+                    changed = True
+    if table:
+        class Drop(ast.NodeTransformer):
+            def visit_Assign(self, n):
+                if len(n.targets) == 1 and isinstance(n.targets[0], ast.Name) and n.targets[0].id in table:
+                    return None
+                return self.generic_visit(n)
+        fn = Drop().visit(fn)
+        fn = _Subst(table).visit(fn)
+    fn.body = _nest_early_exits(fn.body)
+    ast.fix_missing_locations(fn)
+    return fn
+
+
 ALLOWED_CALLS = {'_simulation_minutes_length', '_prepare_times_before_simulation', '_simulate_new_candles', '_generate_outputs'}
 
 
@@ -77,7 +161,7 @@ def accesses(fn, env, first_set_name=None):
                 g = bexpr(p.test, env)
                 if g is not None:
                     if cur in p.body: gs.append(g)
-                    elif cur in p.orelse: gs.append(f'(negb {g})')
+                    elif cur in p.orelse: gs.append(g[6:-1] if g.startswith('(negb ') else f'(negb {g})')
             cur = p
         return gs
 
@@ -171,9 +255,8 @@ def check_warmup(repo):
                 raise Untranslatable(f'{path}: line {n.lineno}: the trading candles are used outside the simulator call')
         if isinstance(n, ast.Name) and n.id == 'candles' and isinstance(n.ctx, ast.Load):
             p = parents[n]
-            ok = (isinstance(p, ast.Call) and ast.unparse(p) == 'copy.deepcopy(candles)') or \
-                 (isinstance(p, ast.Call) and ast.unparse(p.func) == 'candles.items')
-            if not ok and not (isinstance(p, ast.Attribute) and p.attr == 'items'):
+            ok = (isinstance(p, ast.Call) and ast.unparse(p) == 'copy.deepcopy(candles)')
+            if not ok and not (isinstance(p, ast.Attribute) and p.attr in ('items', 'values', 'keys')):
                 raise Untranslatable(f'{path}: line {n.lineno}: unrecognised use of the input candles in _isolated_backtest')
     inj = [n for n in ast.walk(fn) if isinstance(n, ast.Call) and isinstance(n.func, ast.Name) and n.func.id == 'inject_warmup_candles_to_store']
     if len(inj) != 1 or ast.unparse(inj[0].args[0]) != "warmup_candles_dict[key]['candles']":
@@ -227,10 +310,10 @@ def generate(path):
             if n.id == 'count' and isinstance(n.ctx, ast.Store):
                 continue
             raise Untranslatable(f'_simulate_new_candles: {n.id} is reassigned at line {n.lineno}')
-    sa = accesses(step_fn, {'i': 'i', 'count': 'count'})
-    fa = accesses(new_fn, {'i': 'i', 'count': 'count', 'candles_step': 'step'})
+    sa = accesses(normalise(step_fn), {'i': 'i', 'count': 'count'})
+    fa = accesses(normalise(new_fn), {'i': 'i', 'count': 'count', 'candles_step': 'step'})
     # _skip_simulator itself must not touch the rows
-    ka = accesses(skip_fn, {'i': 'i', 'candles_step': 'step'})
+    ka = accesses(normalise(skip_fn), {'i': 'i', 'candles_step': 'step'})
     if ka:
         raise Untranslatable(f'_skip_simulator reads the input rows directly at lines {[a[0] for a in ka]}')
 
@@ -253,19 +336,75 @@ def generate(path):
             raise Untranslatable(f'{nm}: _prepare_times_before_simulation is not called exactly once')
     # when the strategies are executed: `elif <test>: ... r.strategy._execute()` inside `for r in router.routes`
     def exec_guard(fn, env):
-        found = []
+        """the test under which a route whose timeframe is NOT 1m is executed: the path condition of `r.strategy._execute()` inside
+        `for r in router.routes`, with boolean locals inlined and `r.timeframe == timeframes.MINUTE_1` replaced by False.  A 1m route must
+        be executed unconditionally (the same condition with that test replaced by True simplifies to True on some path)."""
+        import copy
+        A = 'r.timeframe == timeframes.MINUTE_1'
+
+        def simp(e, a_val):
+            if ast.unparse(e) == A:
+                return a_val
+            if isinstance(e, ast.UnaryOp) and isinstance(e.op, ast.Not):
+                v = simp(e.operand, a_val)
+                return (not v) if isinstance(v, bool) else ast.UnaryOp(ast.Not(), v)
+            if isinstance(e, ast.BoolOp):
+                vals = [simp(v, a_val) for v in e.values]
+                absorbing = isinstance(e.op, ast.Or)
+                if any(v is absorbing for v in vals):
+                    return absorbing
+                vals = [v for v in vals if not isinstance(v, bool)]
+                if not vals:
+                    return not absorbing
+                return vals[0] if len(vals) == 1 else ast.BoolOp(e.op, vals)
+            return e
+        found, one_minute_ok = [], False
         for n in ast.walk(fn):
             if isinstance(n, ast.For) and ast.unparse(n.iter) == 'router.routes' and isinstance(n.target, ast.Name) and n.target.id == 'r':
-                for m in ast.walk(n):
-                    if isinstance(m, ast.If) and any(ast.unparse(x) == 'r.strategy._execute()' for b in m.body for x in ast.walk(b) if isinstance(x, ast.Call)):
-                        if ast.unparse(m.test) == 'r.timeframe == timeframes.MINUTE_1':
+                loop = copy.deepcopy(n)
+                # boolean locals assigned once inside the loop are inlined
+                stores = {}
+                for m in ast.walk(loop):
+                    if isinstance(m, ast.Name) and isinstance(m.ctx, ast.Store):
+                        stores[m.id] = stores.get(m.id, 0) + 1
+                table = {}
+                for m in ast.walk(loop):
+                    if isinstance(m, ast.Assign) and len(m.targets) == 1 and isinstance(m.targets[0], ast.Name) and stores.get(m.targets[0].id) == 1 \
+                            and isinstance(m.value, (ast.Compare, ast.BoolOp, ast.UnaryOp)) and m.targets[0].id not in env:
+                        table[m.targets[0].id] = _Subst(table).visit(copy.deepcopy(m.value))
+                loop = _Subst(table).visit(loop)
+                loop.body = _nest_early_exits(loop.body)
+                ast.fix_missing_locations(loop)
+                par = {}
+                for m in ast.walk(loop):
+                    for c in ast.iter_child_nodes(m):
+                        par[c] = m
+                for m in ast.walk(loop):
+                    if isinstance(m, ast.Call) and ast.unparse(m) == 'r.strategy._execute()':
+                        conds = []
+                        cur = m
+                        while cur in par and cur is not loop:
+                            q = par[cur]
+                            if isinstance(q, ast.If):
+                                if cur in q.body: conds.append(q.test)
+                                elif cur in q.orelse: conds.append(ast.UnaryOp(ast.Not(), q.test))
+                            elif isinstance(q, (ast.For, ast.While, ast.Try, ast.With)) and q is not loop:
+                                raise Untranslatable(f'{fn.name}: line {m.lineno}: r.strategy._execute() inside a nested {type(q).__name__}')
+                            cur = q
+                        cond = ast.BoolOp(ast.And(), conds) if len(conds) > 1 else (conds[0] if conds else ast.Constant(True))
+                        if not conds or simp(cond, True) is True:
+                            one_minute_ok = True
+                        other = simp(cond, False) if conds else True
+                        if other is False:
                             continue
-                        g = bexpr(m.test, env)
+                        if other is True:
+                            raise Untranslatable(f'{fn.name}: line {m.lineno}: routes of every timeframe are executed at every step')
+                        g = bexpr(other, env)
                         if g is None:
-                            raise Untranslatable(f'{fn.name}: line {m.lineno}: strategy execution test {ast.unparse(m.test)}')
+                            raise Untranslatable(f'{fn.name}: line {m.lineno}: strategy execution test {ast.unparse(other)}')
                         found.append(g)
-        if len(found) != 1:
-            raise Untranslatable(f'{fn.name}: expected one timeframe test guarding r.strategy._execute(), found {len(found)}')
+        if len(found) != 1 or not one_minute_ok:
+            raise Untranslatable(f'{fn.name}: expected one timeframe test guarding r.strategy._execute() (and unconditional execution of 1m routes), found {found}')
         return found[0]
     if '_execute_routes' not in fns or [a.arg for a in fns['_execute_routes'].args.args] != ['candle_index', 'candles_step']:
         raise Untranslatable('_execute_routes(candle_index, candles_step) not found')
@@ -282,7 +421,11 @@ def generate(path):
     want = ["consider_time_frames = [timeframe_to_one_minutes[route['timeframe']] for route in router.all_formatted_routes]",
             'return np.gcd.reduce(consider_time_frames)']
     if [ast.unparse(b) for b in body] != want:
-        raise Untranslatable(f'_calculate_minimum_candle_step is not the gcd over router.all_formatted_routes: {[ast.unparse(b) for b in body]}')
+        # another arrangement of the function: it has a finite domain (sets of route timeframes), so evaluate it on all of it
+        from . import evalfallback
+        okg, detail = evalfallback.candle_step_is_gcd(os.path.dirname(os.path.dirname(os.path.dirname(os.path.abspath(path)))))
+        if not okg:
+            raise Untranslatable(f'_calculate_minimum_candle_step is not the gcd over router.all_formatted_routes: {detail}')
     for (ln, g, lo, hi, cls) in sa + fa:
         uses_count = 'count' in g or 'count' in lo or 'count' in hi
         if uses_count != (cls == 'per_tf'):
